@@ -230,9 +230,9 @@ Qed.
 (* ---------------- a rejected re-set keeps the earlier setting ---------------- *)
 (* set_cookie("a","1"); set_cookie("b","2"); set_cookie("a", chr(0x20ac)) -> ValueError:
    both earlier cookies are still sent ("a" is now the last header) *)
-Definition w_a : call := mkCall [97] [49] None None (Some [47]) None false false None.
-Definition w_b : call := mkCall [98] [50] None None (Some [47]) None false false None.
-Definition w_bad : call := mkCall [97] [8364] None None (Some [47]) None false false None.
+Definition w_a : call := mkCall [97] [49] None None None 0%Z (Some [47]) None false false None.
+Definition w_b : call := mkCall [98] [50] None None None 0%Z (Some [47]) None false false None.
+Definition w_bad : call := mkCall [97] [8364] None None None 0%Z (Some [47]) None false false None.
 
 Lemma failed_reset_example :
   run_ops [OpSet w_a; OpSet w_b; OpSet w_bad] = ([Ok; Ok; ValueErr], [w_b; w_a]).
@@ -285,7 +285,7 @@ Proof. intros ops. apply request_cookies_jar; [apply jar_keys_ok|apply jar_nodup
 (* a concrete call with every attribute, for the Examples *)
 Definition ex_full : call :=
   mkCall [115;105;100] [97;59;34;92;233] (Some [101;46;99;111;109])
-         (Some 951782400%Z)
+         (Some 951782400%Z) (Some 30%Z) 1767323045%Z
          (Some [47;112]) (Some 0%Z) true true (Some [76;97;120]).
 
 Lemma clear_cookie_reads_back_empty : forall c, accepted (lower (OpClear c)) = true ->
@@ -314,14 +314,48 @@ Proof.
 Qed.
 
 (* every accepted call's expiry lies in years 1..9999 (or is absent / falsy) *)
-Lemma accepted_expiry_in_range : forall c t, accepted c = true -> c_expires c = Some t -> t <> 0%Z ->
-  (-62135596800 <= t < 253402300800)%Z.
+Lemma accepted_expiry_in_range : forall c, accepted c = true ->
+  match effective_expiry c with
+  | EffNone => True
+  | EffTs t | EffDays t => (-62135596800 <= t < 253402300800)%Z
+  end.
 Proof.
-  intros c t A E Hz. apply accepted_split in A as [A _]. apply validate_expiry in A.
-  unfold expiry_check in A. rewrite E in A. apply Z.eqb_neq in Hz. rewrite Hz in A.
-  unfold expiry_outcome in A.
-  destruct ((-62135596800 <=? t) && (t <? 253402300800))%Z eqn:R.
-  - apply andb_true_iff in R as [R1 R2]. apply Z.leb_le in R1. apply Z.ltb_lt in R2. lia.
-  - destruct ((-67768040609740800 <=? t) && (t <? 67768036191676800))%Z; [discriminate|].
-    destruct ((-9223372036854775808 <=? t) && (t <? 9223372036854775808))%Z; discriminate.
+  intros c A. apply accepted_split in A as [A _]. apply validate_expiry in A.
+  unfold expiry_check in A. destruct (effective_expiry c) as [|t|t]; [exact I| |].
+  - unfold expiry_outcome in A.
+    destruct ((-62135596800 <=? t) && (t <? 253402300800))%Z eqn:R.
+    + apply andb_true_iff in R as [R1 R2]. apply Z.leb_le in R1. apply Z.ltb_lt in R2. lia.
+    + destruct ((-67768040609740800 <=? t) && (t <? 67768036191676800))%Z; [discriminate|].
+      destruct ((-9223372036854775808 <=? t) && (t <? 9223372036854775808))%Z; discriminate.
+  - destruct ((-62135596800 <=? t) && (t <? 253402300800))%Z eqn:R; [|discriminate].
+    apply andb_true_iff in R as [R1 R2]. apply Z.leb_le in R1. apply Z.ltb_lt in R2. lia.
+Qed.
+
+(* "if both are set, expires is used": the Expires attribute a user agent reads
+   is the text of the explicit (truthy) expires, whatever expires_days is *)
+Lemma explicit_expires_wins : forall c t, accepted c = true -> c_expires c = Some t -> t <> 0%Z ->
+  In (S_expires, Some (format_ts t)) (browser_attrs (output_string c)).
+Proof.
+  intros c t A E Hz. destruct (attributes_exact c A) as [_ Hb]. rewrite Hb.
+  unfold requested. apply in_or_app. right. apply in_or_app. left.
+  unfold req_opt, exp_text, effective_expiry. rewrite E. apply Z.eqb_neq in Hz. rewrite Hz.
+  unfold truthy. destruct (format_ts t) eqn:F; [|left; reflexivity].
+  exfalso. unfold format_ts in F. destruct (civil (Z.to_N (t + epoch_offset) / 86400)) as [[y m] d].
+  apply app_eq_nil in F as [_ F]. discriminate.
+Qed.
+
+(* without an explicit expires, expires_days gives now + days *)
+Lemma expires_days_used : forall c d, accepted c = true ->
+  (c_expires c = None \/ c_expires c = Some 0%Z) -> c_expires_days c = Some d ->
+  exp_text c = Some (format_ts (c_now c + 86400 * d)).
+Proof.
+  intros c d _ [E|E] D; unfold exp_text, effective_expiry, days_path; rewrite E, D; reflexivity.
+Qed.
+
+(* clear_cookie always asks for now - 365 days, even when expires_days is passed *)
+Lemma clear_cookie_expiry : forall c, c_now c <> 31536000%Z ->
+  exp_text (lower (OpClear c)) = Some (format_ts (c_now c - 31536000)).
+Proof.
+  intros c H. unfold exp_text, effective_expiry. cbn [lower c_expires].
+  destruct (c_now c - 31536000 =? 0)%Z eqn:E; [apply Z.eqb_eq in E; lia|reflexivity].
 Qed.
